@@ -38,6 +38,15 @@ CHECKS = {
          "per file, novel ids never reuse a reference id for different exons, exon_id <-> (chr,start,end,strand) bijective over both GTFs.",
          "Trusted: GTF parser in vlib/run.py; state merging argument in evidence.assumptions.",
          "DESIGN.md §3 C17"),
+ "C18": ("model_checking",
+         "explicit-state BFS over query histories on the real IOSupport.check_sites_are_canonical / add_canonical_info_for_model (state = memo table) with a reference function of the FASTA as oracle; pipeline runs over all processing orders of opposite-strand reads",
+         "All query histories of length <=2/3 over 9 intron classes (canonical +/-, GC-AG, AT-AC and their reverse forms, non-canonical, lower-case, "
+         "half) x strands {+,-,.} and 16 two-intron queries are executed on a fresh GeneInfo; the answer must equal the reference function of "
+         "(sequence, intron, strand) in every state. Pipeline: antisense gene pairs sharing an intron with reads of both genes in every "
+         "left/right order (length 3/4), novel loci with +/-/non-canonical sites and polyA/polyT evidence under every --report_canonical level; "
+         "every Canonical= flag of reads and Canonical attribute/strand of models is compared with the FASTA.",
+         "Trusted: reference function in props/c18.py; for strand '.' only history-independence is required.",
+         "DESIGN.md §3 C18"),
 }
 
 NOT_YET = {}
